@@ -56,6 +56,15 @@ func SHA(t *rapid.T, label string) cipher.SHA256 {
 	return h
 }
 
+// NonNullSHA draws a hash that is never all zero (also after shrinking).
+func NonNullSHA(t *rapid.T, label string) cipher.SHA256 {
+	h := SHA(t, label)
+	if h == (cipher.SHA256{}) {
+		h[31] = 1
+	}
+	return h
+}
+
 // Amount draws a coin/hour amount with boundary bias below `max`.
 func Amount(max uint64) *rapid.Generator[uint64] {
 	if max == 0 {
@@ -91,7 +100,7 @@ func Ux(t *rapid.T, label string, addr cipher.Address, maxCoins, maxHours uint64
 			BkSeq: rapid.Uint64Range(0, 1<<20).Draw(t, label+"_seq"),
 		},
 		Body: coin.UxBody{
-			SrcTransaction: SHA(t, label+"_src"),
+			SrcTransaction: NonNullSHA(t, label+"_src"),
 			Address:        addr,
 			Coins:          1 + Amount(maxCoins-1).Draw(t, label+"_coins"),
 			Hours:          Amount(maxHours).Draw(t, label+"_hours"),
